@@ -332,7 +332,9 @@ func kindName(k ObjKind) string {
 
 func solveAll(e *Engine, obs []*Obligation, tier int, timeout time.Duration) {
 	var wg sync.WaitGroup
-	sem := make(chan struct{}, 16)
+	// every job runs a portfolio of 3-8 solver processes: 8 concurrent jobs keep the 16 cores busy without
+	// starving the long obligations into their timeout
+	sem := make(chan struct{}, 8)
 	var mu sync.Mutex
 	// queries must be rendered sequentially (the store is not thread-safe)
 	type job struct {
@@ -556,7 +558,7 @@ func main() {
 	if os.Getenv("VERIF_TIER") == "thorough" {
 		tier = 1
 	}
-	timeout := 60 * time.Second
+	timeout := 180 * time.Second
 	if tier == 1 {
 		timeout = 600 * time.Second
 	}
